@@ -342,6 +342,15 @@ func pool(s *simrt.Sim, restart bool) {
 			s.Logf("WaitIsZero returned")
 		})
 	}
+	if s.Choose(3) == 2 {
+		// somebody watches the queue length (the queue is a public field): it shares the queue's condition variables with
+		// the dispatcher, and may legitimately wait for ever
+		n := s.Choose(3)
+		s.Go("queuemonitor", func() {
+			p.Queue.WaitSizeIsAbove(n)
+			s.Probe("queue-monitor-woken")
+		})
+	}
 	delay := s.Choose(4)
 	cycles := 1
 	if restart {
@@ -412,7 +421,7 @@ func pool(s *simrt.Sim, restart bool) {
 	// conservation first: a task that was counted but never dispatched also keeps the dispatcher (and with it the
 	// shutdown) waiting, and is reported as what it is
 	w.finalChecks(p, cancel)
-	hx.Stuck(s, "termination", left, nil)
+	hx.Stuck(s, "termination", left, func(t simrt.TaskInfo) bool { return t.Name != "queuemonitor" })
 }
 
 // group ------------------------------------------------------------------------------------------
